@@ -1,8 +1,64 @@
 (* Prop_C08.v — the property theorems of C08 and nothing else. *)
 From Coq Require Import List NArith ZArith Bool Sorting.Sorted Sorting.Permutation.
 Import ListNotations.
-From Verif Require Import Base.Val C06.Restr C08.Ord_C08 C08.Model_C08 C08.Spec_C08 C08.Proofs_C08.
+From Verif Require Import Base.Val C06.Restr C08.Ord_C08 C08.Model_C08 C08.Spec_C08 C08.Proofs_C08 C08.Sorted_C08.
 
-Theorem dedup_NoDup : forall l, NoDup (dedup l).
-Proof. exact dedup_NoDup_proof. Qed.
-Print Assumptions dedup_NoDup.
+(* the candidate search never drops the key of a package the restriction matches
+   (any world, repository, restriction; any object with attributes of a key the repository lists) *)
+Theorem candidates_complete : forall w R r o c p cs,
+  flat_atom r = true -> has_attrs o = true -> okey o = (c, p) ->
+  In c (categories R) -> In p (packages_get R c) ->
+  matches w r o = true -> candidates w R r = Some cs -> In (c, p) cs.
+Proof. exact candidates_complete_proof. Qed.
+Print Assumptions candidates_complete.
+
+(* ... and lists no key twice *)
+Theorem candidates_nodup : forall w R r cs,
+  repo_wf R -> candidates w R r = Some cs -> NoDup cs.
+Proof. exact candidates_nodup_proof. Qed.
+Print Assumptions candidates_nodup.
+
+(* a query of any restriction answers (no exception path of the candidate search is reachable) *)
+Theorem query_never_raises : forall w R m r, exists got, itermatch w R m r = Some got.
+Proof. exact query_never_raises_proof. Qed.
+Print Assumptions query_never_raises.
+
+(* hence a versioned query, and an unversioned query over package objects, yields exactly the
+   brute-force filter of the repository: every matching package, nothing else, each once *)
+Theorem query_exact : forall w R m r got,
+  repo_wf R -> flat_atom r = true -> m <> MUnvTuple ->
+  itermatch w R m r = Some got -> exact_answer got (brute w R m r).
+Proof. exact query_exact_proof. Qed.
+Print Assumptions query_exact.
+
+(* a sorted query yields the same packages as the plain one, in sorter order *)
+Theorem sorted_query : forall w R m r l,
+  repo_wf R -> itermatch_sorted w R m r = Some l ->
+  StronglySorted obj_le l /\ exists got, itermatch w R m r = Some got /\ Permutation got l.
+Proof. exact sorted_query_proof. Qed.
+Print Assumptions sorted_query.
+
+(* a query over a stack of repositories is the chain of the per-repository exact answers *)
+Theorem multiplex_union : forall w Rs m r got,
+  Forall repo_wf Rs -> flat_atom r = true -> m <> MUnvTuple ->
+  multiplex w Rs m r = Some got ->
+  exists parts, got = concat parts /\
+    Forall2 (fun R part => exact_answer part (brute w R m r)) Rs parts.
+Proof. exact multiplex_union_proof. Qed.
+Print Assumptions multiplex_union.
+
+(* ... and with a sorter it is that chain merged into sorter order *)
+Theorem multiplex_sorted_union : forall w Rs m r l,
+  Forall repo_wf Rs -> multiplex_sorted w Rs m r = Some l ->
+  Sorted obj_le l /\ exists got, multiplex w Rs m r = Some got /\ Permutation got l.
+Proof. exact multiplex_sorted_proof. Qed.
+Print Assumptions multiplex_sorted_union.
+
+(* known finding: the default unversioned call matches bare tuples, which have no attributes *)
+Theorem unversioned_tuple_refuted : ~ unversioned_tuple_full.
+Proof. exact unversioned_tuple_refuted_proof. Qed.
+Print Assumptions unversioned_tuple_refuted.
+
+Theorem tuple_matches_blind : forall w r c p, matches w r (PT c p) = eval (fun _ => false) r.
+Proof. exact tuple_matches_blind_proof. Qed.
+Print Assumptions tuple_matches_blind.
